@@ -67,6 +67,12 @@ func (r *c14Rec) fault() bool {
 	return false
 }
 
+// c14Tok renders a lookup result for the model: the bytes and their SHA-256 (the model does not compute hashes).
+func c14Tok(v []byte) string {
+	h := sha256.Sum256(v)
+	return verifkit.Hex(v) + "/" + verifkit.Hex(h[:])
+}
+
 func (r *c14Rec) setGBH(v string) {
 	r.lastGBH = v
 	if len(r.gbhs) < 64 {
@@ -99,7 +105,7 @@ func (s *c14Store) FindByKey(_ context.Context, key []byte) ([]byte, error) {
 		s.rec.ev("sfind %s miss", verifkit.Hex(key))
 		return nil, errors.New("sql: no rows in result set")
 	}
-	s.rec.setGBH(verifkit.Hex(v))
+	s.rec.setGBH(c14Tok(v))
 	s.rec.ev("sfind %s %s", verifkit.Hex(key), verifkit.Hex(v))
 	return append([]byte{}, v...), nil
 }
@@ -133,7 +139,7 @@ func (c *c14Cache) Get(ctx context.Context, key []byte) ([]byte, error) {
 	}
 	v, err := c.inner.Get(ctx, key)
 	if v != nil {
-		c.rec.setGBH(verifkit.Hex(v))
+		c.rec.setGBH(c14Tok(v))
 		c.rec.ev("cget %s %s", verifkit.Hex(key), verifkit.Hex(v))
 	} else {
 		c.rec.ev("cget %s miss", verifkit.Hex(key))
@@ -229,6 +235,7 @@ func (b *c14Backend) extra(i int) []byte {
 // ---------------------------------------------------------------- PKI
 
 type c14PKI struct {
+	bigExt   int // when > 0, intermediates carry a non-critical private extension of this many bytes
 	rootKey  *ecdsa.PrivateKey
 	rootCert *stdx509.Certificate
 	rootDER  []byte
@@ -279,6 +286,9 @@ func (p *c14PKI) chain(nInter int, precert bool, pad int) [][]byte {
 			panic(err)
 		}
 		t := p.tmpl(fmt.Sprintf("verif int %d/%d", i, p.serial), true)
+		if p.bigExt > 0 {
+			t.ExtraExtensions = []pkix.Extension{{Id: asn1.ObjectIdentifier{1, 3, 6, 1, 4, 1, 99999, 1}, Value: append([]byte{0x04, 0x84, byte(p.bigExt >> 24), byte(p.bigExt >> 16), byte(p.bigExt >> 8), byte(p.bigExt)}, make([]byte, p.bigExt)...)}}
+		}
 		der, err := stdx509.CreateCertificate(p.rd, t, parent, &k.PublicKey, pkey)
 		if err != nil {
 			panic(err)
@@ -317,6 +327,7 @@ type c14Env struct {
 	signer *ecdsa.PrivateKey
 	direct *logInfo
 	dback  *c14Backend
+	nWellformed int
 }
 
 type c14Indirect struct {
@@ -345,6 +356,19 @@ func (e *c14Env) mkIndirect(name string, inner cache.IssuanceChainCache) *c14Ind
 	svc := newIndirectIssuanceChainService(st, &c14Cache{rec: rec, inner: inner})
 	b := newC14Backend()
 	return &c14Indirect{name: name, li: e.mkLogInfo(b, svc), back: b, rec: rec, store: st, svc: svc, corruptKind: map[string]string{}}
+}
+
+// fail reports a property failure. verifkit lists only the first 200 failures of a run, so the class of the recorded
+// finding (a well-formed wrong row served with success) is listed at most 40 times and cannot crowd out another one.
+func (e *c14Env) fail(key, detail string) {
+	if strings.Contains(key, "corruption=wellformed-") {
+		e.nWellformed++
+		if e.nWellformed > 40 {
+			e.out.Count("class:failure-not-listed-again:wellformed-wrong-row-served")
+			return
+		}
+	}
+	e.out.Fail(key, detail)
 }
 
 func c14Body(chain [][]byte) string {
@@ -571,7 +595,7 @@ func (e *c14Env) serveL(ind *c14Indirect, i int, eap bool, faultAt int, what, la
 	} else if status >= 500 {
 		ans = "5xx"
 	}
-	e.out.T(fmt.Sprintf("serve %s %s", verifkit.Hex(stored), gbh), ans)
+	e.out.T(fmt.Sprintf("serve %s %s f%s", verifkit.Hex(stored), gbh, verifkit.B(faulted)), ans)
 	// the property
 	corruptSeen := false
 	if what == "corrupt" {
@@ -579,12 +603,12 @@ func (e *c14Env) serveL(ind *c14Indirect, i int, eap bool, faultAt int, what, la
 			ind.rec.mu.Lock()
 			cur, ok := ind.store.m[string(h)]
 			ind.rec.mu.Unlock()
-			corruptSeen = ok && gbh == verifkit.Hex(cur) // the lookup returned the corrupted bytes (not a cached good copy)
+			corruptSeen = ok && gbh == c14Tok(cur) // the lookup returned the corrupted bytes (not a cached good copy)
 		}
 	}
 	switch {
 	case status == 200 && corruptSeen:
-		e.out.Fail(key+" "+ind.corruptKind[string(c14HashOf(stored))], fmt.Sprintf("the stored chain is corrupted (lookup returned %d corrupted bytes) but the entry was served with success (%d bytes of extra_data, in-backend mode has %d)", (len(gbh)+1)/2, len(served), len(want)))
+		e.fail(key+" "+ind.corruptKind[string(c14HashOf(stored))], fmt.Sprintf("the stored chain is corrupted (lookup returned %d corrupted bytes) but the entry was served with success (%d bytes of extra_data, in-backend mode has %d)", (strings.Index(gbh, "/")+1)/2, len(served), len(want)))
 	case status == 200 && string(served) != string(want):
 		e.out.Fail(key, fmt.Sprintf("served extra_data differs from the in-backend mode: got %d bytes, want %d bytes", len(served), len(want)))
 	case status == 200:
@@ -594,7 +618,7 @@ func (e *c14Env) serveL(ind *c14Indirect, i int, eap bool, faultAt int, what, la
 	default:
 		e.out.Fail(key, fmt.Sprintf("status %d without any fault", status))
 	}
-	if status == 200 && (what == "corrupt" || what == "delete") && gbh != "-" && gbh != "err" {
+	if status == 200 && (what == "corrupt" || what == "delete") && gbh != "-" && gbh != "err" && !corruptSeen {
 		// only a cached copy of the right chain may still be served
 		e.out.Count("class:served-from-cache-after-store-damage")
 	}
@@ -626,6 +650,36 @@ func c14Caches() []c14CacheCfg {
 		}
 	}
 	return l
+}
+
+// TestVerifC14Oversized: the poisoned-range scenario on its own (17 MB of certificates: run without -race).
+func TestVerifC14Oversized(t *testing.T) {
+	out := verifkit.Open()
+	defer out.Close()
+	r := verifkit.NewRand(verifkit.Seed())
+	e := &c14Env{out: out, r: r, pki: newC14PKI(r)}
+	sk, err := ecdsa.GenerateKey(elliptic.P256(), c15Reader{r.Fork()})
+	if err != nil {
+		t.Fatal(err)
+	}
+	e.signer = sk
+	cfgs := []c14CacheCfg{c14Caches()[0]}
+	if verifkit.Thorough() {
+		cfgs = append(cfgs, c14Caches()[5], c14Caches()[8])
+	}
+	for _, cc := range cfgs {
+		e.dback = newC14Backend()
+		e.direct = e.mkLogInfo(e.dback, &directIssuanceChainService{})
+		ind := e.mkIndirect(cc.name, cc.mk())
+		for k := 0; k < 3; k++ { // a few ordinary entries around it
+			e.submit(ind, e.pki.chain(k, k == 1, 0), k == 1, 0)
+		}
+		e.poisonedRange(ind)
+		for i := 0; i < ind.back.size(); i++ {
+			e.serve(ind, i, false, 0, "")
+		}
+		e.serveRange(ind, 0, ind.back.size()-1, 0, "", "")
+	}
 }
 
 func TestVerifC14(t *testing.T) {
@@ -725,7 +779,7 @@ func TestVerifC14(t *testing.T) {
 			e.serve(ind, r.Intn(n), r.Bool(), 1+r.Intn(2), "")
 		}
 		// multi-entry ranges: clean, and with a fault at the k-th storage/cache call (mostly on a non-first leaf)
-		for k := 0; k < verifkit.N(16, 200) && n > 3; k++ {
+		for k := 0; k < verifkit.N(10, 200) && n > 3; k++ {
 			ln := 3 + r.Intn(5)
 			a := r.Intn(n - 2)
 			b := a + ln - 1
@@ -778,10 +832,48 @@ func TestVerifC14(t *testing.T) {
 			}
 			ind.rec.mu.Lock()
 			v := ind.store.m[k]
-			kind := r.Intn(9)
+			kind := r.Intn(13)
 			var nv []byte
 			name := ""
 			switch kind {
+			case 9:
+				// well-formed but wrong: the row now holds another submission's chain
+				for _, k2 := range keys {
+					if k2 != k && string(ind.store.m[k2]) != string(v) {
+						if _, _, ok := c14ParseChain(ind.store.m[k2]); ok {
+							nv, name = append([]byte{}, ind.store.m[k2]...), "wellformed-other-submissions-chain"
+							break
+						}
+					}
+				}
+				if name == "" {
+					nv, name = derOf([][]byte{{1, 2, 3}}), "wellformed-other-submissions-chain"
+				}
+			case 10:
+				// well-formed but wrong: the empty chain
+				nv, name = []byte{0x30, 0x00}, "wellformed-empty-sequence"
+				if string(v) == string(nv) {
+					nv, name = derOf([][]byte{{9}}), "wellformed-other-submissions-chain"
+				}
+			case 11:
+				// well-formed but wrong: two certificates swapped
+				if certs, _, ok := c14ParseChain(v); ok && len(certs) >= 2 && string(certs[0]) != string(certs[1]) {
+					sw := append([][]byte{}, certs...)
+					sw[0], sw[1] = sw[1], sw[0]
+					nv, name = derOf(sw), "wellformed-two-certificates-swapped"
+				} else {
+					nv, name = []byte{0x30, 0x00}, "wellformed-empty-sequence"
+					if string(v) == string(nv) {
+						nv, name = derOf([][]byte{{9}}), "wellformed-other-submissions-chain"
+					}
+				}
+			case 12:
+				// well-formed but wrong: the last certificate dropped, lengths fixed up
+				if certs, _, ok := c14ParseChain(v); ok && len(certs) >= 1 {
+					nv, name = derOf(certs[:len(certs)-1]), "wellformed-last-certificate-dropped"
+				} else {
+					nv, name = derOf([][]byte{{9}}), "wellformed-other-submissions-chain"
+				}
 			case 0:
 				delete(ind.store.m, k)
 				damaged[k] = "delete"
@@ -838,7 +930,7 @@ func TestVerifC14(t *testing.T) {
 			e.serve(ind, i, r.Bool(), 0, what)
 		}
 		// ranges over the damaged store: the damaged chain is usually not the first of the range
-		for k := 0; k < verifkit.N(20, 250) && n > 3; k++ {
+		for k := 0; k < verifkit.N(12, 250) && n > 3; k++ {
 			ln := 3 + r.Intn(5)
 			a := r.Intn(n - 2)
 			b := a + ln - 1
@@ -881,7 +973,7 @@ func TestVerifC14(t *testing.T) {
 			ind.rec.mu.Lock()
 			gbh := ind.rec.lastGBH
 			ind.rec.mu.Unlock()
-			out.T(fmt.Sprintf("serve %s %s", verifkit.Hex(junk), gbh), ans)
+			out.T(fmt.Sprintf("serve %s %s f0", verifkit.Hex(junk), gbh), ans)
 			out.Count("class:junk-extra")
 			// keep the direct backend aligned
 			e.dback.fl.QueueLeafF(&trillian.QueueLeafRequest{Leaf: &trillian.LogLeaf{LeafValue: []byte{1}, ExtraData: junk}})
@@ -1010,7 +1102,11 @@ func (e *c14Env) serveRange(ind *c14Indirect, a, b int, faultAt int, state, labe
 				if c14HashOf(en.ExtraData) != nil && string(en.ExtraData) == string(ind.back.extra(a+j)) {
 					form = "the raw hash form stored in the backend"
 				}
-				e.out.Fail(fmt.Sprintf("%s bad-position=%d", key, j), fmt.Sprintf("status 200 but entry %d of the reply (index %d) carries %s (%d bytes) instead of the in-backend extra_data (%d bytes)", j, a+j, form, len(en.ExtraData), len(want)))
+				ck := ""
+				if h := c14HashOf(ind.back.extra(a + j)); h != nil && ind.corruptKind[string(h)] != "" {
+					ck = " " + ind.corruptKind[string(h)]
+				}
+				e.fail(fmt.Sprintf("%s bad-position=%d%s", key, j, ck), fmt.Sprintf("status 200 but entry %d of the reply (index %d) carries %s (%d bytes) instead of the in-backend extra_data (%d bytes)", j, a+j, form, len(en.ExtraData), len(want)))
 				break
 			}
 		}
@@ -1023,6 +1119,69 @@ func (e *c14Env) serveRange(ind *c14Indirect, a, b int, faultAt int, state, labe
 		e.out.Count("class:range-fault-gives-error")
 	default:
 		e.out.Fail(key, fmt.Sprintf("status %d without any fault", status))
+	}
+}
+
+// poisonedRange plays, through the real add-chain: a chain whose certificates are each below the TLS limit of 2^24-1
+// bytes but whose `certificate_chain` body is above it (two intermediates of ~8.4 MB). The in-backend mode cannot encode
+// its extra data and refuses the submission. If the external-storage mode accepts it (it only DER-encodes the chain at
+// submission), the entry is sequenced, can never be served, and every get-entries range containing it fails: a poisoned
+// range. Oracle: what the in-backend mode refuses, the external-storage mode refuses too.
+func (e *c14Env) poisonedRange(ind *c14Indirect) {
+	e.pki.bigExt = 8400000
+	chain := e.pki.chain(2, false, 0)
+	e.pki.bigExt = 0
+	body := c14Body(chain)
+	ind.rec.mu.Lock()
+	ind.rec.trace = false // the 17 MB chain is not sent to the model
+	ind.rec.calls, ind.rec.faultAt, ind.rec.faulted = 0, 0, false
+	ind.rec.mu.Unlock()
+	defer func() {
+		ind.rec.mu.Lock()
+		ind.rec.trace = true
+		ind.rec.mu.Unlock()
+	}()
+	nd, ni := e.dback.size(), ind.back.size()
+	var sd, si int
+	if p := verifkit.Guard(func() { sd = vServe(e.direct, "add-chain", "POST", nil, body).Code }); p != "" {
+		e.out.Fail("panic:poisoned-range direct add-chain", p)
+		return
+	}
+	if p := verifkit.Guard(func() { si = vServe(ind.li, "add-chain", "POST", nil, body).Code }); p != "" {
+		e.out.Fail("panic:poisoned-range external-storage add-chain", p)
+		return
+	}
+	total := 0
+	for _, c := range chain[1:] {
+		total += 3 + len(c)
+	}
+	e.out.Count(fmt.Sprintf("class:oversized-chain-direct-%d-external-%d", sd, si))
+	if sd == 200 || e.dback.size() != nd {
+		e.out.Fail("poisoned-range harness", fmt.Sprintf("the in-backend mode accepted a chain body of %d bytes (status %d)", total, sd))
+		return
+	}
+	if si != 200 && ind.back.size() == ni {
+		return // refused by both: nothing was sequenced
+	}
+	// accepted: show what readers get, then take the leaf out again so that the two backends stay in step
+	i := ind.back.size() - 1
+	one := vServe(ind.li, "get-entries", "GET", url.Values{"start": {fmt.Sprint(i)}, "end": {fmt.Sprint(i)}}, "").Code
+	from := i - 2
+	if from < 0 {
+		from = 0
+	}
+	rng := vServe(ind.li, "get-entries", "GET", url.Values{"start": {fmt.Sprint(from)}, "end": {fmt.Sprint(i)}}, "").Code
+	eap := vServe(ind.li, "get-entry-and-proof", "GET", url.Values{"leaf_index": {fmt.Sprint(i)}, "tree_size": {fmt.Sprint(i + 1)}}, "").Code
+	e.out.Fail(fmt.Sprintf("poisoned-range add-chain oversized-chain-body=%d cache=%s", total, ind.name),
+		fmt.Sprintf("the in-backend mode refuses the submission (%d: extra data cannot be TLS-encoded, %d > 16777215) but the external-storage mode accepted it (%d) and sequenced entry %d; reading it: get-entries %d..%d -> %d, get-entries %d..%d -> %d, get-entry-and-proof -> %d", sd, total, si, i, i, i, one, from, i, rng, eap))
+	stored := ind.back.extra(i)
+	ind.back.mu.Lock()
+	ind.back.leaves = ind.back.leaves[:ni]
+	ind.back.mu.Unlock()
+	if h := c14HashOf(stored); h != nil {
+		ind.rec.mu.Lock()
+		delete(ind.store.m, string(h))
+		ind.rec.mu.Unlock()
 	}
 }
 
@@ -1081,7 +1240,7 @@ func (e *c14Env) concurrent(cc c14CacheCfg, pool []c14Sub) {
 	want := sync.Map{} // leaf value -> extra data of the in-backend mode
 	stop := make(chan struct{})
 	writers, readers := 3, 3
-	perWriter := verifkit.N(8, 100)
+	perWriter := verifkit.N(6, 100)
 	for w := 0; w < writers; w++ {
 		rr := e.r.Fork()
 		wg.Add(1)
